@@ -239,6 +239,27 @@ class AObj:
 class _GenClose(BaseException):
     pass
 
+class CallIter:
+    """iter(callable, sentinel): the callable is called when the consumer asks for the next item, so that what the loop body does between two
+    calls is seen by the next call, as in Python"""
+    def __init__(self, interp, f, sentinel, node, env):
+        self.interp, self.f, self.sentinel, self.node, self.env = interp, f, sentinel, node, env
+        self.done = False
+    def __iter__(self):
+        return self
+    def __next__(self):
+        if self.done:
+            raise StopIteration
+        it = self.interp
+        it.steps += 1
+        if it.steps > it.max_steps:
+            raise Unknown('step budget exhausted')
+        v = it.apply_callable(self.f, [], {}, self.node, self.env)
+        if it.truth(it.compare(ast.Eq(), v, self.sentinel, self.node), self.node):
+            self.done = True
+            raise StopIteration
+        return v
+
 class LazyGen:
     """a generator function whose body has effects between items: run item by item (in a helper thread that strictly alternates with the
     consumer), so that what the consumer does between two items and what the generator does on resumption interleave as in Python"""
@@ -937,7 +958,7 @@ class Interp:
         raise Unknown(f"dictionary key is abstract at line {getattr(node, 'lineno', 0)}")
 
     def iterate(self, it, node):
-        if isinstance(it, LazyGen):
+        if isinstance(it, (LazyGen, CallIter)):
             return it
         if isinstance(it, ADict):
             return [self.key_back(k) for k in it.items]
@@ -997,6 +1018,8 @@ class Interp:
             seq = v.items if isinstance(v, AList) else v
             if isinstance(seq, ABytes):
                 seq = [self.byte_to_int(b) for b in seq.items]
+            if isinstance(seq, AObj) and '__fields__' in seq.attrs:
+                seq = [seq.attrs[k] for k in seq.attrs['__fields__']]
             stars = [i for i, e in enumerate(t.elts) if isinstance(e, ast.Starred)]
             if isinstance(seq, (tuple, list)) and len(stars) == 1 and len(seq) >= len(t.elts) - 1:
                 # a, *rest, z = seq
@@ -1125,6 +1148,8 @@ class Interp:
                 return ABytes([('c', x) for x in v])
             if isinstance(v, str):
                 return AStr([('lit', v)])
+            if isinstance(v, float) and v == v and v not in (float('inf'), float('-inf')):
+                return AInt(v)          # a concrete number: arithmetic on concrete numbers is Python's own
             return AOpaque(repr(v))
         if isinstance(e, ast.Name):
             if e.id in env:
@@ -1177,6 +1202,11 @@ class Interp:
                         pass
                 elif e.attr in self.methods and o.attrs.get('__receiver__', True) is not False:
                     fnp = self.methods[e.attr] if any(isinstance(d, ast.Name) and d.id == 'property' for d in self.methods[e.attr].decorator_list) else None
+                    if fnp is None and isinstance(self.methods[e.attr], ast.FunctionDef):
+                        # a reference to a method of the receiver (handed to iter(), map(), sorted(key=..)): the bound method
+                        d_ = [ast.unparse(d) for d in self.methods[e.attr].decorator_list]
+                        if not d_ or d_ == ['staticmethod']:
+                            return AFunc(self.methods[e.attr], None, self.module, bound=None if d_ else o)
                 if fnp is not None and any(isinstance(d, ast.Name) and d.id == 'property' for d in fnp.decorator_list):
                     return self.call_function(fnp, [o])
                 raise Unknown(f"attribute {e.attr} not modelled (line {e.lineno})")
@@ -1345,6 +1375,7 @@ class Interp:
 
     def str_format(self, fmt, args, node=None):
         import string as _string
+        import re as _re
         pieces = []
         auto = 0
         for lit, field, spec, conv in _string.Formatter().parse(fmt):
@@ -1359,7 +1390,24 @@ class Interp:
             elif field.isdigit():
                 idx = int(field)
             else:
-                raise Unknown(f"format field {field!r}")
+                m_ = _re.fullmatch(r'(\d*)((?:\.[A-Za-z_]\w*)+)', field)
+                if not m_:
+                    raise Unknown(f"format field {field!r}")
+                # '{0.PGN}' / '{.id}': attribute access on the positional argument
+                if m_.group(1) == '':
+                    idx = auto; auto += 1
+                else:
+                    idx = int(m_.group(1))
+                if idx >= len(args):
+                    raise PyError('IndexError', getattr(node, 'lineno', 0))
+                cur = ast.Name(id='__fmt_arg', ctx=ast.Load())
+                for part in m_.group(2).split('.')[1:]:
+                    cur = ast.Attribute(value=cur, attr=part, ctx=ast.Load())
+                if node is not None:
+                    ast.copy_location(cur, node)
+                ast.fix_missing_locations(cur)
+                pieces.extend(self.format(self.expr(cur, {'__fmt_arg': args[idx]}), spec or ''))
+                continue
             if idx >= len(args):
                 raise PyError('IndexError', getattr(node, 'lineno', 0))
             pieces.extend(self.format(args[idx], spec or ''))
@@ -1836,8 +1884,8 @@ class Interp:
                 self.call_function(init[0], [obj] + args, kw)
             elif any((isinstance(d_, ast.Name) and d_.id == 'dataclass') or (isinstance(d_, ast.Attribute) and d_.attr == 'dataclass') or
                      (isinstance(d_, ast.Call) and ((isinstance(d_.func, ast.Name) and d_.func.id == 'dataclass') or (isinstance(d_.func, ast.Attribute) and d_.func.attr == 'dataclass')))
-                     for d_ in cdef.decorator_list):
-                # the generated __init__ of a dataclass: fields in order, positional / keyword arguments, defaults, default_factory called per instance
+                     for d_ in cdef.decorator_list) or any(ast.unparse(b_).split('.')[-1] == 'NamedTuple' for b_ in cdef.bases):
+                # the generated __init__ of a dataclass / typing.NamedTuple: fields in order, positional / keyword arguments, defaults, default_factory called per instance
                 flds = [n_ for n_ in cdef.body if isinstance(n_, ast.AnnAssign) and isinstance(n_.target, ast.Name) and 'ClassVar' not in ast.unparse(n_.annotation)]
                 given = dict(zip([n_.target.id for n_ in flds], args))
                 if len(args) > len(flds):
@@ -1862,6 +1910,8 @@ class Interp:
                             raise PyError('TypeError', e.lineno)
                     else:
                         obj.attrs[nm_] = self.expr(v_, {})
+                if any(ast.unparse(b_).split('.')[-1] == 'NamedTuple' for b_ in cdef.bases):
+                    obj.attrs['__fields__'] = tuple(n_.target.id for n_ in flds)
                 post = [n_ for n_ in cdef.body if isinstance(n_, ast.FunctionDef) and n_.name == '__post_init__']
                 if post:
                     self.call_function(post[0], [obj])
@@ -1870,6 +1920,8 @@ class Interp:
             return self.call_function(self.functions[f.id], args, kw)
         if isinstance(f, ast.Name):
             n = f.id
+            if n == 'enumerate' and n not in env and len(args) == 1 and set(kw) == {'start'}:
+                args = [args[0], kw['start']]; kw = {}
             if kw and n not in ('sorted', 'int', 'bytes', 'max', 'min', 'divmod') and n in ('len', 'range', 'bytearray', 'reversed', 'list', 'sum', 'enumerate', 'zip'):
                 raise Unknown(f"{n}() with keyword arguments at line {e.lineno}")
             if n in ('getattr', 'hasattr') and len(args) in (2, 3) and isinstance(args[1], AStr) and args[1].literal() is not None and not kw:
@@ -1973,6 +2025,8 @@ class Interp:
                 raise PyError('StopIteration', e.lineno)
             if n == 'iter' and len(args) == 1:
                 return AList(self.iterate(args[0], e))
+            if n == 'iter' and len(args) == 2 and not kw and isinstance(args[0], (AFunc, AClass)):
+                return CallIter(self, args[0], args[1], e, env)
             if n == 'enumerate' and len(args) in (1, 2):
                 start = args[1].v if len(args) == 2 and isinstance(args[1], AInt) and args[1].v is not None else (0 if len(args) == 1 else None)
                 if start is None:
@@ -2000,6 +2054,11 @@ class Interp:
                         raise Unknown(f"range over an abstract bound at line {e.lineno}")
                     vals.append(a.v)
                 return range(*vals)
+            if n == 'round' and n not in env and len(args) in (1, 2) and not kw and all(isinstance(a, AInt) and a.v is not None for a in args):
+                try:
+                    return AInt(round(*[a.v for a in args]))
+                except (ValueError, OverflowError, TypeError):
+                    raise Unknown(f"round() fails at line {e.lineno}")
             if n in ('min', 'max'):
                 if kw:
                     raise Unknown(f"{n}() with keyword arguments at line {e.lineno}")
@@ -2040,6 +2099,11 @@ class Interp:
                     return ABytes([('c', 0)] * a.v, True)
                 raise Unknown(f"bytearray() argument at line {e.lineno}")
             if n == 'int':
+                if len(args) == 1 and isinstance(args[0], AInt) and isinstance(args[0].v, float):
+                    try:
+                        return AInt(int(args[0].v))
+                    except (ValueError, OverflowError):
+                        raise PyError('ValueError', e.lineno)
                 if len(args) == 1 and isinstance(args[0], AInt):
                     return args[0]
                 if len(args) == 1 and isinstance(args[0], bool):
